@@ -181,6 +181,13 @@ pub fn check_roundtrip(dm: &DecodedMap, case: &Value, tag: &str) -> Vec<Viol> {
     let r = guarded(|| -> Result<(), (String, String)> {
         let bytes = ser(dm).map_err(|e| ("serialise-error".to_string(), e))?;
         let d = decode_slice(&bytes).map_err(|e| ("decode-of-own-output-fails".to_string(), format!("decode_slice(to_writer(map)) = Err({e}); output = {}", String::from_utf8_lossy(&bytes))))?;
+        // reading the written bytes through the reader entry point, one byte per read, is the
+        // same decode
+        match sourcemap::decode(OneByte(&bytes, 0)) {
+            Ok(dr) if obs_decoded(&dr) == obs_decoded(&d) => {}
+            Ok(_) => return Err(("decode-of-own-output-differs/reader".into(), format!("decode(reader, one byte per read) and decode_slice give different maps for {}", String::from_utf8_lossy(&bytes)))),
+            Err(e) => return Err(("decode-of-own-output-fails/reader".into(), format!("decode(reader, one byte per read) = Err({e}) where decode_slice succeeds; output = {}", String::from_utf8_lossy(&bytes)))),
+        }
         match (dm, &d) {
             (DecodedMap::Regular(a), DecodedMap::Regular(b)) => {
                 let (oa, ob) = (obs_real(a).dedup(), obs_real(b).dedup());
